@@ -1,5 +1,5 @@
 (* Properties_C11.v — C11: the non-negative least-squares solvers return the constrained optimum.
-   Statements only; proofs in C11_KKT_Proofs.v, C11_Proofs.v, C11_Exit_Proofs.v, C11_Pjv_Proofs.v, C11_LH_Proofs.v.
+   Statements only; proofs in C11_KKT_Proofs.v, C11_Proofs.v, C11_Exit_Proofs.v, C11_Pjv_Proofs.v, C11_LH_Proofs.v, C11_Term_Proofs.v.
 
    Vocabulary (C11_Spec.v): [spd n M] = n x n, entry-wise symmetric, v'Mv > 0 for every non-zero v;
    [kkt M b x] = x >= 0, and per component: gradient (Mx - b)_i = 0, or x_i = 0 and (Mx - b)_i >= 0;
@@ -9,7 +9,7 @@
    `nH2 == 0` (before the repair) / `nH2 == 0 && nH1 == 0 && full_step` (after). *)
 From Coq Require Import List ZArith Bool QArith Qcanon.
 From PS Require Import Arith Generated_nnls NnlsModel NnlsModel2 C11_Spec C11_Spec2 C11_KKT_Proofs C11_Proofs C11_Exit_Proofs
-  C11_Pjv_Proofs C11_LH_Proofs.
+  C11_Pjv_Proofs C11_LH_Proofs C11_Term_Proofs.
 Import ListNotations.
 
 Section AnyOrderedField.
@@ -58,6 +58,17 @@ Theorem C11_block3_exit_kkt : forall (M : list (list K)) (b : list K),
   r_exit (block3 M b) = NormalExit ->
   kkt_tol (block3_tol (length b)) M b (r_x (block3 M b)).
 Proof. exact (block3_exit_kkt_tree A OF). Qed.
+
+(* the inner loop `while (!feasible)` terminates: the model's InnerFuel exit (fuel 2n+2 per outer pass) is unreachable.
+   Every pass that does not end the loop either shrinks the free set or (at most once between two shrinks) steps to a
+   break point, which leaves a coefficient at exactly 0 whose reduced solution is negative, so that the next pass
+   shrinks the free set. Exact arithmetic; no symmetry or definiteness needed; only hypothesis: M is n x n. *)
+Theorem C11_block3_inner_terminates : forall (M : list (list K)) (b : list K),
+  wf_mat (length b) M -> r_exit (block3 M b) <> InnerFuel.
+Proof. exact (block3_inner_terminates A OF). Qed.
+Theorem C11_block3_inner_terminates_gen : forall (solve : list nat -> option (list K)) (M : list (list K)) (b : list K) (tol : K) rep max_iter,
+  solve_ok solve M b -> wf_mat (length b) M -> r_exit (block3_run rep solve M b tol max_iter) <> InnerFuel.
+Proof. exact (fun solve M b tol rep max_iter Hs HM => block3_run_inner_terminates OF solve M b tol Hs HM rep max_iter). Qed.
 
 (* ---- the other three solvers (NnlsModel2.v) ------------------------------------------------------------------
    [pjv_block] / [pjv_updown] = transcriptions of nnls_normal_block / nnls_normal_block_updown with the exit test, the
@@ -115,10 +126,9 @@ Proof. exact (fun A M b => conj (pjv_block_iters A M b) (pjv_updown_iters A M b)
 
 (* termination: the outer loop makes at most max_iter passes (and exactly max_iter when it gives up);
    each pass makes at most [fuel] = 2n+2 reduced solves before the model reports InnerFuel.
-   PARTIAL: that the InnerFuel exit is unreachable (every repeated pass of `while (!feasible)` either binds a
-   coefficient — neg_set_nonempty — or strictly reduces the residual) is not proved; the check counts such
-   exits of the model on every generated case (0 observed).
-   FULL statement wanted:  r_exit (block3 M b) <> InnerFuel  for spd M. *)
+   That the InnerFuel exit is unreachable is C11_block3_inner_terminates above (the name _partial is kept for the
+   references to it): together, the model of nnls_normal_block3 always terminates, with at most
+   max_iter * (2n+2) reduced solves. *)
 Theorem C11_block3_terminates_partial : forall (A : Arith) (M : list (list (T A))) (b : list (T A)),
   (r_iters (block3 M b) <= block3_max_iter)%nat /\
   (r_exit (block3 M b) = MaxIter -> r_iters (block3 M b) = block3_max_iter).
@@ -182,3 +192,5 @@ Print Assumptions C11_pjv_exit_kkt_gen.
 Print Assumptions C11_kkt_tol2_nonneg.
 Print Assumptions C11_lh_exit_kkt_tol_partial.
 Print Assumptions C11_pjv_terminates.
+Print Assumptions C11_block3_inner_terminates.
+Print Assumptions C11_block3_inner_terminates_gen.
